@@ -366,6 +366,57 @@ fn verif_make_parser<L: Lit>(reader: LineReader<'static>, header: Header) -> Par
     Parser { reader, max_lit: header.max_var_index * 2 + 1, code: (header.input_count + 1).wrapping_mul(2), header, _lit_builder: std::marker::PhantomData }
 }""")
 
+_SMALL_WRITER = ("flussab/src/deferred_writer.rs", """#[cfg(kani)]
+impl<'a> DeferredWriter<'a> {
+    /// harness-only constructor: same struct, small buffer capacity (the code is capacity-generic)
+    pub fn verif_with_capacity(write: impl Write + 'a, cap: usize) -> Self {
+        DeferredWriter { write: Box::new(write), buf: Vec::with_capacity(cap), io_error: None, panicked: false }
+    }
+}""")
+
+_MAKE_BINARY = """#[cfg(kani)]
+fn verif_make_parser<L: Lit>(reader: LineReader<'static>, header: Header) -> Parser<'static, L> {
+    Parser { reader, max_lit: header.max_var_index * 2 + 1, code: (header.input_count + 1).wrapping_mul(2), header, _lit_builder: std::marker::PhantomData }
+}"""
+
+GROUPS["aiger_binary_rt"] = dict(dict(_MODEL, **_SPEC_INJECT), **{
+    "name": "aiger_binary_rt",
+    "package": "flussab-aiger",
+    "prefix": "binary::verif_rt::",
+    "overlay": [("flussab-aiger/src/binary.rs", "rt", "harness/aiger/binary_rt.rs")],
+    "append_text": _SPEC_INJECT["append_text"] + [_SMALL_WRITER, ("flussab-aiger/src/binary.rs", _MAKE_BINARY), ("flussab-aiger/src/lib.rs", "#[cfg(kani)]\n#[allow(dead_code)]\nmod verif_params;")],
+    "params": {"quick": {"N": 4, "RT_BITS": 21}, "thorough": {"N": 8, "RT_BITS": 55}},
+    "params_crates": ["flussab", "flussab-aiger"],
+    "subst": {"RT_BITS": "crate::verif_params::RT_BITS"},
+    "flags": ["-Z", "stubbing"],
+    "flags_tier": {"quick": ["--default-unwind", "6"], "thorough": ["--default-unwind", "10"]},
+    "timeout": {"quick": 1500, "thorough": 5400},
+    "rss_gb": 20,
+    "harnesses": [
+        ("rt_binary_uint", {"cost": 8, "what": "binary write_binary_uint -> delta_code/binary_uint for every value < 2^RT_BITS"}),
+        ("rt_and_gate", {"cost": 8, "tiers": [], "what": "binary write_and_gate -> next_and_gate: every code <= 2^RT_BITS and inputs <= code"}),
+        ("rt_latch", {"cost": 8, "tiers": [], "what": "binary write_latch -> next_latch: three reset forms, u8 literals"}),
+        ("reach_rt", {"kind": "reach", "cost": 2, "what": "vacuity twin"}),
+    ],
+})
+
+GROUPS["btor2_rt"] = dict(_MODEL, **{
+    "name": "btor2_rt",
+    "package": "flussab-btor2",
+    "prefix": "btor2::verif_rt::",
+    "overlay": [("flussab-btor2/src/btor2.rs", "rt", "harness/btor2/btor2_rt.rs")],
+    "params": {"quick": {"N": 12}, "thorough": {"N": 12}},
+    "flags": ["-Z", "stubbing", "--default-unwind", "42"],
+    "timeout": {"quick": 1500, "thorough": 3600},
+    "rss_gb": 20,
+    "harnesses": [
+        ("rt_binary_op_names", {"cost": 8, "what": "BTOR2: every BinaryOp::name() is a keyword read back as the same operator"}),
+        ("rt_other_keywords", {"cost": 5, "what": "BTOR2: unary / ext / slice / ternary operator names"}),
+        ("rt_constants", {"cost": 5, "what": "BTOR2: constants accepted by BinaryConst/DecimalConst/HexConst::try_from are read back entirely by the constant tokens"}),
+        ("reach_btor2_rt", {"kind": "reach", "cost": 1, "what": "vacuity twin"}),
+    ],
+})
+
 GROUPS["parser_c15"] = {
     "name": "parser_c15",
     "package": "flussab",
@@ -557,8 +608,18 @@ PROPERTIES["C10"] = {
     "assumptions": ["as C02"],
 }
 
+PROPERTIES["C03"] = {
+    "level": "other",
+    "groups": ["aiger_binary_rt", "btor2_rt", "writer_digits", "aiger_ascii_t2", "aiger_binary_t2"],
+    "claim": "Round trip decided per entry and by composition, each link a SAT-based bounded model check of real code: (a) binary AIGER 7-bit delta encoding: write_binary_uint -> delta_code/binary_uint is the identity for every value < 2^RT_BITS with exact consumption; (b) BTOR2: every operator name the writer emits is a keyword the parser maps back to the same operator; every constant constructible through the validating TryFrom constructors is read back entirely by the matching constant token; (c) decimal numbers: the writer's integer text is the canonical decimal text of the value (C11 digits harnesses) and the parsers' number tokens return exactly the decimal value of a numeral (C06), so number o text o number = identity; (d) AIGER headers/symbols: the parser's limits do not reject what the writer can produce (T2 header_parse / next_symbol).",
+    "level_note": "PARTIAL: whole-line round trips (write_clause -> next_clause, AIGER latch/and-gate lines, BTOR2 Line::write_into -> next_line) were attempted and exhaust CBMC's memory (writer formatting + parser in one query), so line structure (separators, field order) is NOT covered by a solver query; it is covered only by the repository's own round-trip tests. The converse direction parse o write o parse is covered only at token level (leading zeros, -0).",
+    "functions": ["flussab_aiger::binary::Writer::write_binary_uint", "flussab_aiger::token::{delta_code, binary_uint}", "flussab_btor2::btor2::{BinaryOp,UnaryOp,TernaryOp}::name", "flussab_btor2::token::{node_token, required_*_constant}", "flussab_btor2::btor2::{BinaryConst,DecimalConst,HexConst}::try_from", "flussab::write::text::ascii_digits", "aiger Header::parse / next_symbol"],
+    "explanation": "see claim",
+    "bounds_note": "values < 2^RT_BITS (21 quick / 55 thorough); constants of <= 3 ASCII bytes; integer formatting for 8/16(/32)-bit types",
+    "outside": ["whole-line and whole-document round trips", "names/comments with arbitrary UTF-8", "64/128-bit integer formatting (itoap)"],
+    "assumptions": ["reader model R (C02)"],
+}
+
 NOT_APPLICABLE = {
     "C12": "AIG renumbering is one explicit-stack DFS over std HashMaps with no smaller unit; Kani does not finish symbolic execution even for a 1-gate circuit (>15 min, see DESIGN.md section 1 and C12); a MIR executor is out of reach of this task. Not switching technique.",
 }
-for _pid in ["C03"]:
-    NOT_APPLICABLE.setdefault(_pid, "check under construction in this session (see DESIGN.md section 7); not yet claimed")
